@@ -11,7 +11,7 @@ RUN_MODULE = "C11.Run"
 RUN_FN = "run_case"
 HARNESS_BIN = "c11"
 HARNESS_BINS = ["c11"]
-SHRINK_KEEP = ("new", "bad", "expect", "drain_check", "arrive", "peer_close")
+SHRINK_KEEP = ("new", "bad", "expect", "drain_check", "drain_check_x", "arrive", "peer_close")
 RULE = ("cases: delivery histories (d*: framed WorkerResponse stream, optionally with malformed frames in "
         "between, cut at seeded points into arrive/ev/turn triples), API-level op sequences (a*), writer "
         "sequences (w*), malformed-prefix sequences (m*); sizes straddle init, 2*init, max/2, max. "
@@ -143,11 +143,12 @@ def delivery_case(rng, cid, malformed):
         ops.append(["bad"] + sorted(set(bad)))
     if good:
         ops.append(["expect"] + good)
+    main_loop = rng.random() < 0.35          # the main process's extract_messages instead of the worker's loop
     for ch in chunks:
         ops.append(["arrive", ch])
         ops.append(["ev", 1, 0])
-        ops.append(["turn"])
-    ops.append(["drain_check"])
+        ops.append(["extract" if main_loop else "turn"])
+    ops.append(["drain_check_x" if main_loop else "drain_check"])
     return Case(cid, ops, dict(msgs=len(good), chunks=len(chunks)))
 
 
@@ -178,8 +179,10 @@ def api_case(rng, cid):
             ops.append(["ev", rng.choice([0, 1, 1]), rng.choice([0, 1])])
         elif r < 0.6:
             ops.append(["readable"])
-        elif r < 0.8:
+        elif r < 0.75:
             ops.append(["read"])
+        elif r < 0.8:
+            ops.append(["extract"])
         elif r < 0.9:
             sz = rng.choice([6, init - 8, mx - 8, mx - 7, mx, 2 * mx, rng.randint(6, mx + 20)])
             ops.append(["write", payload_of_size(rng, max(6, sz))])
